@@ -125,15 +125,78 @@ def host_function(mod, fname, params, local_specs, filename):
     return mod.__dict__[fname], len(lines) - 1
 
 
-def outcome(expr, env_globals, env_locals):
-    """the reference evaluation: what `expr` gives in (globals, locals) — independent of the agent."""
+def at_line(expr, env_globals, env_locals):
+    """what the host program would get writing `expr` at the paused line: every name visible at that line — the
+    frame's locals, shadowing its module's globals, shadowing the builtins — is visible everywhere in the expression,
+    nested lambdas / generator expressions included (they would be closures of the function).  Returns
+    (value or exception, failed)."""
+    ns = dict(env_globals)
+    ns.update(env_locals)
     try:
-        v = eval(expr, env_globals, dict(env_locals))
+        return eval(expr, ns), False
+    except BaseException as e:  # noqa: B902
+        return e, True
+
+
+def outcome(expr, env_globals, env_locals):
+    """the reference evaluation from the STATEMENT (see at_line) — independent of the agent."""
+    v, failed = at_line(expr, env_globals, env_locals)
+    return describe(v, failed)
+
+
+def eval_outcome(expr, env_globals, env_locals):
+    """Python's `eval(expr, globals, locals)` — the oracle the MODEL is parametrised by (the model says which
+    environments reach `eval`; what `eval` then does is Python's business)."""
+    try:
+        v = eval(expr, dict(env_globals), dict(env_locals))
         failed = False
     except BaseException as e:  # noqa: B902
         v = e
         failed = True
     return describe(v, failed)
+
+
+def nested_local_uses(expr, local_names):
+    """names of frame locals that `expr` uses inside a nested scope of its own (lambda body, generator expression):
+    there CPython resolves free names in globals / builtins only, the `locals` mapping given to eval is not seen.
+    (List / set / dict comprehensions are inlined since 3.12 and do see them.)"""
+    import ast as _ast
+    try:
+        tree = _ast.parse(expr.strip(), mode='eval')
+    except SyntaxError:
+        return []
+    found = []
+
+    def bound_in(node):
+        b = set()
+        if isinstance(node, _ast.Lambda):
+            a = node.args
+            for x in a.posonlyargs + a.args + a.kwonlyargs + ([a.vararg] if a.vararg else []) + ([a.kwarg] if a.kwarg else []):
+                b.add(x.arg)
+        else:
+            for g in node.generators:
+                for n in _ast.walk(g.target):
+                    if isinstance(n, _ast.Name):
+                        b.add(n.id)
+        return b
+
+    def scan(node, bound):
+        for n in _ast.walk(node):
+            if isinstance(n, _ast.Name) and isinstance(n.ctx, _ast.Load) and n.id in local_names and n.id not in bound:
+                found.append(n.id)
+
+    for node in _ast.walk(tree):
+        if isinstance(node, _ast.Lambda):
+            scan(node.body, bound_in(node))
+        elif isinstance(node, _ast.GeneratorExp):
+            b = bound_in(node)
+            scan(node.elt, b)
+            for i, g in enumerate(node.generators):
+                if i > 0:
+                    scan(g.iter, b)          # the first iterable is evaluated in the enclosing scope
+                for c in g.ifs:
+                    scan(c, b)
+    return sorted(set(found))
 
 
 def describe(v, failed=False):
